@@ -3,6 +3,7 @@ package core
 import (
 	"fmt"
 	"go/token"
+	"go/types"
 	"strings"
 
 	"golang.org/x/tools/go/ssa"
@@ -215,14 +216,38 @@ func (q PathQuery) calleeWeight(in ssa.Instruction) (int, int) {
 			return 0, 0
 		}
 	}
+	// a boolean argument whose value is known under the assumptions is known inside the callee as well
+	// (keep := a || len(ps) > 0; readBody(r, keep)): the parameter is assumed to have that value
+	assume := q.Assume
+	bound := false
+	if len(q.Assume) > 0 {
+		for i, a := range cl.Call.Args {
+			if i >= len(callee.Params) {
+				break
+			}
+			if bt, isB := a.Type().Underlying().(*types.Basic); !isB || bt.Kind() != types.Bool {
+				continue
+			}
+			if val, known := q.assumeEval(a, nil, map[ssa.Value]bool{}); known {
+				par := ssa.Value(callee.Params[i])
+				if !bound {
+					assume = append([]Assumption{}, q.Assume...)
+					bound = true
+				}
+				assume = append(assume, Assumption{Pred: func(v ssa.Value) bool { return v == par }, Val: val})
+			}
+		}
+	}
 	iv, ok := ds.memo[callee]
-	if !ok {
-		sub := PathQuery{Fn: callee, Weight: q.Weight, Edge: q.Edge, Assume: q.Assume, CalleeExit: q.CalleeExit, Exit: func(b *ssa.BasicBlock) bool {
+	if !ok || bound {
+		sub := PathQuery{Fn: callee, Weight: q.Weight, Edge: q.Edge, Assume: assume, CalleeExit: q.CalleeExit, Exit: func(b *ssa.BasicBlock) bool {
 			return ExitOf(b) == ExitReturn && (q.CalleeExit == nil || q.CalleeExit(b))
 		},
 			deep: &deepState{memo: ds.memo, stack: append(append([]*ssa.Function{}, ds.stack...), q.Fn)}}
 		iv = sub.Count()
-		ds.memo[callee] = iv
+		if !bound {
+			ds.memo[callee] = iv
+		}
 	}
 	if iv.NoPath {
 		return 0, 0
